@@ -35,3 +35,47 @@ package avro
 //@   ensures [C17] err == nil ==> uvOK(d.buf, i0, d.i) && res == unzz(pv(d.buf, i0, d.i - i0))
 //@   ensures [C17] err != nil ==> uvBad(d.buf, i0, d.i, n)
 //@   modifies d.i
+
+//@ func (*ReadBuf).Next
+//@   let i0 := d.i, n := len(d.buf)
+//@   requires d != nil && 0 <= d.i && d.i <= len(d.buf)
+//@   ensures [C06,C04,C17] (0 <= l && l <= n - i0) <==> err == nil
+//@   ensures [C06,C04,C17] err == nil ==> d.i == i0 + l && len(res) == l && base(res) == base(d.buf) && off(res) == off(d.buf) + i0
+//@   ensures [C06,C04] err != nil ==> d.i == i0
+//@   modifies d.i
+
+//@ func skip
+//@   let i0 := r.i, n := len(r.buf)
+//@   requires r != nil && 0 <= r.i && r.i <= len(r.buf)
+//@   ensures [C06,C04] (0 <= l && l <= n - i0) <==> err == nil
+//@   ensures [C06,C04] err == nil ==> r.i == i0 + l
+//@   ensures [C06,C04] err != nil ==> r.i == i0
+//@   modifies r.i
+
+// ---------------------------------------------------------------- buffer.go: WriteBuf
+
+//@ func (*WriteBuf).Varint
+//@   let b0 := w.buf
+//@   requires w != nil
+//@   ensures [C17,C02,C13] len(w.buf) == len(b0) + uvlen(zz(v))
+//@   ensures [C17,C02,C13] forall k int :: 0 <= k && k < len(b0) ==> w.buf[k] == old(b0[k])
+//@   ensures [C17,C02,C13] forall j int :: 0 <= j && j < uvlen(zz(v)) ==> w.buf[len(b0)+j] == uvbyte(zz(v), j)
+//@   modifies w.buf, BH[w.buf]
+//@   emits V(v)
+
+//@ func (*WriteBuf).Byte
+//@   let b0 := w.buf
+//@   requires w != nil
+//@   ensures [C17,C02,C13] len(w.buf) == len(b0) + 1 && w.buf[len(b0)] == val
+//@   ensures [C17,C02,C13] forall k int :: 0 <= k && k < len(b0) ==> w.buf[k] == old(b0[k])
+//@   modifies w.buf, BH[w.buf]
+//@   emits B(val)
+
+//@ func (*WriteBuf).Write
+//@   let b0 := w.buf
+//@   requires w != nil
+//@   ensures [C17,C02,C13] len(w.buf) == len(b0) + len(val)
+//@   ensures [C17,C02,C13] forall k int :: 0 <= k && k < len(b0) ==> w.buf[k] == old(b0[k])
+//@   ensures [C17,C02,C13] forall j int :: 0 <= j && j < len(val) ==> w.buf[len(b0)+j] == old(val[j])
+//@   modifies w.buf, BH[w.buf]
+//@   emits W(len(val))
